@@ -134,6 +134,13 @@ func (hp *holePuncher) directConnect(rp peer.ID) error {
 
 	// hole punch
 	for i := 1; i <= maxRetries; i++ {
+		// A direct connection may have shown up in the meantime (e.g. the peer
+		// dialed us while our direct dial was running). There's nothing left
+		// to do then, and the coordination stream below must not run over it.
+		if getDirectConnection(hp.host, rp) != nil {
+			log.Debug("already connected", "source_peer", hp.host.ID(), "destination_peer", rp)
+			return nil
+		}
 		isClient := false
 		// On the last attempt we switch roles in case the connection is
 		// being made with a client with switched roles. Common for peers
